@@ -248,6 +248,29 @@ def backtick_constant(x, depth=0):
     return False
 
 
+def type_names(x, acc=None, depth=0):
+    """upper-cased type names used by the TypeCast nodes / TableColumns of a tree"""
+    from mindsdb_sql.parser.ast.base import ASTNode
+    acc = set() if acc is None else acc
+    if depth > 200:
+        return acc
+    n = type(x).__name__
+    if n == 'TypeCast' and isinstance(x.type_name, str):
+        acc.add(x.type_name.upper())
+    if n == 'TableColumn' and isinstance(x.type, str):
+        acc.add(x.type.upper())
+    if isinstance(x, ASTNode) or n == 'TableColumn':
+        for v in vars(x).values():
+            type_names(v, acc, depth + 1)
+    elif isinstance(x, (list, tuple)):
+        for v in x:
+            type_names(v, acc, depth + 1)
+    elif isinstance(x, dict):
+        for v in x.values():
+            type_names(v, acc, depth + 1)
+    return acc
+
+
 def exc_class(e):
     from sqlalchemy.exc import SQLAlchemyError
     from mindsdb_sql.render.sqlalchemy_render import RenderError
@@ -305,6 +328,10 @@ def kf_match(k, f):
     s = k.get('sig', {})
     if s.get('kind') != f.get('kind'):
         return False
+    if f['kind'] == 'raise' and 'type_names' in s:
+        # a tree that names one of the listed non-type keys of types_map, failing inside SQLAlchemy's type machinery
+        return (f.get('exc') in s.get('excs', []) and bool(set(s['type_names']) & set(f.get('types', [])))
+                and re.fullmatch(s.get('func_re', ''), f.get('func', '')) is not None)
     if f['kind'] == 'raise':
         return (s.get('exc') == f.get('exc') and re.fullmatch(s.get('func_re', ''), f.get('func', '')) is not None
                 and re.search(s.get('file_re', ''), f.get('file', '')) is not None
@@ -368,7 +395,13 @@ def probe_tree(d, text, a, S=None):
                 fails.append(failure('mutation', d, rd, aft is after1, text, cls=type(a).__name__, paths=paths,
                                      desc='rendering changed the input tree at %s' % paths,
                                      **{'class': 'mutation/%s/%s' % (type(a).__name__, ','.join(paths))}))
+                for f in fails:
+                    f['types'] = sorted(type_names(a))
                 return fails, obs, True
+    if fails:
+        tn = sorted(type_names(a))
+        for f in fails:
+            f['types'] = tn
     return fails, obs, False
 
 
@@ -426,9 +459,100 @@ def func_shapes(rng, n):
     return out
 
 
+INTERVALS = ["INTERVAL '1 day'", "INTERVAL '01:30:00'", "INTERVAL '1'", "INTERVAL '1day'", "INTERVAL ''", "INTERVAL '1' day",
+             "INTERVAL '2' HOURS", "INTERVAL 1 day", "INTERVAL 30 minute", "interval 2 hours", "INTERVAL '3 months 2 days'",
+             "INTERVAL '1 year' month", "INTERVAL 0 second", "INTERVAL '-1 week'", "interval '1   day'", "INTERVAL ' 1 day'"]
+INTERVAL_CTX = ['select %s', 'select %s as x from t', 'select a + %s from t', 'select * from t where a > now() - %s',
+                'select * from t where a between %s and %s', 'select * from t1 join t2 on t1.a = t2.a + %s',
+                'select * from t1 left join t2 on t1.a > %s', 'select * from (select %s as i from s) as q',
+                'select (select %s) from t', 'select * from t where a in (select b + %s from s)', 'select date_add(a, %s) from t',
+                'select case when a > %s then %s else 1 end from t', 'select a from t group by a + %s order by a - %s',
+                'select * from t where exists (select 1 from s where s.a < %s)', 'select cast(%s as varchar) from t',
+                'insert into t (a) values (%s)', 'update t set a = a + %s where b < %s', 'delete from t where a < now() - %s',
+                'select %s union select %s']
+TYPE_ARGS = ['', '(11)', '(0)', '(255)', '(10, 2)', '(3, 0)']
+
+
+def type_shapes(d):
+    """every key of the live types_map (+ the MySQL spellings) x optional length / (precision, scale):
+    as column type of CREATE TABLE and as target type of CAST"""
+    names = list(renderer('mysql').types_map.keys()) if d == 'mindsdb' else []
+    names += ['int', 'bigint', 'tinyint', 'smallint', 'integer', 'int8', 'float8', 'double', 'datetime', 'date', 'timestamp',
+              'varchar', 'char', 'text', 'decimal', 'numeric', 'bool', 'serial', 'json']
+    out = []
+    for n in names:
+        for arg in TYPE_ARGS:
+            out.append('create table t (id %s%s)' % (n, arg))
+            out.append('select cast(a as %s%s) from t' % (n, arg))
+        out.append('create table t (a int, b %s(20) default x, c %s primary key, d %s(1) not null)' % (n, n, n))
+    out.append('create table t (id int(11), big bigint(20), d date(3), name varchar(255), primary key (id))')
+    out.append('create table a.b (id int(11) default 0, ts timestamp(6) default current_timestamp, f float(8) null)')
+    return out
+
+
+def interval_shapes():
+    out = []
+    for i, c in enumerate(INTERVAL_CTX):
+        for j, iv in enumerate(INTERVALS):
+            k = c.count('%s')
+            out.append(c % tuple(INTERVALS[(j + m * 5) % len(INTERVALS)] if m else iv for m in range(k)))
+    return out
+
+
+_cov = {}
+
+
+def grammar_shapes(d, rng, n):
+    """coverage-guided derivations of `expr` (every production whose lhs is `expr` is forced once per run, then the
+    least-used-first walk of tools/harness/gen.Grammar) in six contexts, and of `table_column_list` inside CREATE TABLE"""
+    from tools.harness import gen
+    G = gen.Grammar(d)
+    ctxs = ['select %s', 'select %s from t', 'select * from t where %s', 'select * from t1 join t2 on %s',
+            'select * from (select %s from s) as q', 'select a from t group by a having %s']
+
+    def text_of(types):
+        return gen.render(d, types, rng)
+    out = []
+    for lhs in ('expr', 'table_column'):
+        for i in G.by_lhs.get(lhs, []):
+            for rep in range(2):
+                types = []
+                G.used[i] += 1
+                for y in G.prods[i]['rhs']:
+                    types += [y] if y in G.termset else G.derive(rng, depth=rng.randint(2, 5), sym=y)
+                t = text_of(types)
+                if t is None:
+                    continue
+                out.append((rng.choice(ctxs) % t) if lhs == 'expr' else 'create table t ( %s )' % t)
+    for k in range(n):
+        t = text_of(G.derive(rng, depth=rng.randint(2, 7), sym='expr'))
+        if t is not None:
+            out.append(ctxs[k % len(ctxs)] % t)
+    if 'table_column_list' in G.by_lhs:
+        for k in range(max(10, n // 10)):
+            t = text_of(G.derive(rng, depth=rng.randint(2, 6), sym='table_column_list'))
+            if t is not None:
+                out.append('create table %s ( %s )' % (rng.choice(['t', 'a.b', 'if not exists t']), t))
+    reach, todo = set(), ['expr']
+    while todo:
+        x = todo.pop()
+        for i in G.by_lhs.get(x, []):
+            if i not in reach:
+                reach.add(i)
+                todo += [y for y in G.prods[i]['rhs'] if y not in G.termset]
+    _cov[d] = dict(expr_reachable_productions=len(reach), exercised=sum(1 for i in reach if G.used[i]))
+    return out
+
+
 def case_stream(d, rng, n_mut, n_sent, n_func):
     for s in SHAPES:
         yield dict(src='shape', text=s)
+    for s in type_shapes(d):
+        yield dict(src='types', text=s)
+    for s in interval_shapes():
+        yield dict(src='interval', text=s)
+    for s in grammar_shapes(d, rng, max(150, n_sent // 3)):
+        yield dict(src='exprgen', text=s)
     for s in func_shapes(rng, n_func):
         yield dict(src='func', text=s)
     yield from streams.statement_stream(d, rng, n_mut, n_sent)
@@ -608,7 +732,7 @@ def run(chk):
                                     '| raise e => if caught e ∧ fb then (match printer with | ret s => fallback (fallbackText dn s) | raise e\' => raised e\') else raised e)'))
     chk.samples.append(dict(theorem='C17_own_tables: ∀ tables w ctx t, clean tables w ctx t = true → saRaises tables w ctx t ∈ {none, some sa, some notImpl}'))
     chk.samples.append(dict(theorem='C17_no_mutation: ∀ tables cols, (prepareCols tables cols).1 = cols'))
-    return chk.finish(assumptions=ASSUME, extra=dict(impl_probe=dict(distribution=dist), notes=chk.notes[:20]))
+    return chk.finish(assumptions=ASSUME, extra=dict(impl_probe=dict(distribution=dist, expr_coverage=_cov), notes=chk.notes[:20]))
 
 
 def replay(path):
